@@ -15,12 +15,21 @@
 package dmap
 
 import (
+	"math"
 	"time"
 
 	"github.com/olric-data/olric/internal/cluster/partitions"
 	"github.com/olric-data/olric/internal/protocol"
 	"github.com/tidwall/redcon"
 )
+
+// secondsToDuration converts seconds received as a float into a Duration, rounded to the
+// millisecond, the resolution an expiry is kept in. Truncating the product instead loses a
+// millisecond whenever the float is just below the value it stands for:
+// 1893456002.602 * 1e9 is 1893456002601999872.
+func secondsToDuration(seconds float64) time.Duration {
+	return time.Duration(math.Round(seconds*1000)) * time.Millisecond
+}
 
 func (s *Service) putCommandHandler(conn redcon.Conn, cmd redcon.Command) {
 	putCmd, err := protocol.ParsePutCommand(cmd)
@@ -42,13 +51,13 @@ func (s *Service) putCommandHandler(conn redcon.Conn, cmd redcon.Command) {
 		pc.HasXX = true
 	case putCmd.EX != 0:
 		pc.HasEX = true
-		pc.EX = time.Duration(putCmd.EX * float64(time.Second))
+		pc.EX = secondsToDuration(putCmd.EX)
 	case putCmd.PX != 0:
 		pc.HasPX = true
 		pc.PX = time.Duration(putCmd.PX * int64(time.Millisecond))
 	case putCmd.EXAT != 0:
 		pc.HasEXAT = true
-		pc.EXAT = time.Duration(putCmd.EXAT * float64(time.Second))
+		pc.EXAT = secondsToDuration(putCmd.EXAT)
 	case putCmd.PXAT != 0:
 		pc.HasPXAT = true
 		pc.PXAT = time.Duration(putCmd.PXAT * int64(time.Millisecond))
@@ -60,13 +69,13 @@ func (s *Service) putCommandHandler(conn redcon.Conn, cmd redcon.Command) {
 		switch {
 		case putCmd.EX != 0:
 			pc.HasEX = true
-			pc.EX = time.Duration(putCmd.EX * float64(time.Second))
+			pc.EX = secondsToDuration(putCmd.EX)
 		case putCmd.PX != 0:
 			pc.HasPX = true
 			pc.PX = time.Duration(putCmd.PX * int64(time.Millisecond))
 		case putCmd.EXAT != 0:
 			pc.HasEXAT = true
-			pc.EXAT = time.Duration(putCmd.EXAT * float64(time.Second))
+			pc.EXAT = secondsToDuration(putCmd.EXAT)
 		case putCmd.PXAT != 0:
 			pc.HasPXAT = true
 			pc.PXAT = time.Duration(putCmd.PXAT * int64(time.Millisecond))
